@@ -251,6 +251,23 @@ def run_real(kind: str, pd: dict, xd: dict) -> Tuple[dict, List[str], dict]:
                     break
     if wire.canon_value(ctx, x) != before:
         fails.append(f"{pd['k']} mutated its argument")
+    elif kind == "pred" and type(x) is list and x and "ok" in out and pd["k"] in (
+            "UniqueItems", "MinItems", "MaxItems", "ExactItemCount"):
+        # the same predicate object asked again about the same list after the caller has edited it in place (a
+        # duplicate of its first item appended, then removed again): each answer is the one a fresh predicate gives
+        try:
+            fresh = build.mk_pred(wire.Ctx(), pd)
+            x.append(x[0])
+            a1, b1 = p(x), fresh(x)
+            x.pop()
+            a2, b2 = p(x), fresh(x)
+            if pd["k"] == "UniqueItems":
+                b1, b2 = False, out["ok"]     # an item twice: not unique; the original list: the original answer
+            if (a1, a2) != (b1, b2):
+                fails.append(f"{pd['k']} asked again about the same list after an in-place edit answers {a1}, {a2}; "
+                             f"a fresh predicate answers {b1}, {b2}")
+        except BaseException:  # noqa
+            pass
     return out, fails, before
 
 
